@@ -859,6 +859,9 @@ impl GenProfile {
             "small" => GenProfile { files: 1, structs: 3, unions: 1, enums: 1, typedefs: 1, exceptions: 1, services: 1, defaults: true, arg_pool: 2, ns_style: -1, annotations: false, recursion: true },
             // many definitions, several services that reach only part of them (C17: the
             // builder's default ignore_unused mode walks the used items from the services)
+            // one file, one namespace, several hundred definitions (C17: work that is split
+            // by item count rather than by namespace)
+            "big1" => GenProfile { files: 1, structs: 300, unions: 10, enums: 12, typedefs: 12, exceptions: 4, services: 2, defaults: true, arg_pool: 8, ns_style: -1, annotations: false, recursion: true },
             "sparse" => GenProfile { files: 3, structs: 60, unions: 6, enums: 8, typedefs: 8, exceptions: 4, services: 6, defaults: true, arg_pool: 24, ns_style: -1, annotations: false, recursion: true },
             _ => GenProfile { files: 3, structs: 8, unions: 2, enums: 2, typedefs: 3, exceptions: 2, services: 1, defaults: true, arg_pool: 2, ns_style: -1, annotations: true, recursion: true },
         }
